@@ -89,7 +89,7 @@ C03)
   (cd $REPO && go build -o "$W/goose" ./cmd/goose) || { echo "harness error: goose does not build" >&2; exit 3; }
   EXTRA_ARGS="-bin $W/goose"
   ;;
-C07)
+C05|C07)
   build "$W/bin" ./cmd/$LC || exit 3
   (cd $REPO && go build -o "$W/goose" ./cmd/goose) || { echo "harness error: goose does not build" >&2; exit 3; }
   bridge
